@@ -6,21 +6,25 @@
 
    raw      socket/protocol.go  rawProto.Pack: the name is written after ONE length byte;
             more than 255 bytes -> Pack fails, nothing is sent.  Unpack reads that many bytes.
-   json     proto/jsonproto Pack: strconv.Quote(name); Unpack: gjson.Get(..).String(), which
-            un-escapes with gjson.unescape.  mixer/websocket/jsonSubProto: %q, the same pair.
+   json     proto/jsonproto Pack: the name between quotes, escaped by escapeBody (backslash and
+            quote backslash-escaped, bytes < 0x20 as \u00XX, every other byte raw); Unpack:
+            gjson.Get(..).String(), which un-escapes with gjson.unescape.
+            mixer/websocket/jsonSubProto: the same pair.  Before the repair (7ef806c):
+            strconv.Quote / %q, kept as [wire_json_prefix].
    pb       proto/pbproto: a protobuf [string] field; Marshal refuses invalid UTF-8.
             mixer/websocket/pbSubProto: the same message with the older generated code, no
             UTF-8 check (observed; all bytes pass).
    thrift   proto/thriftproto binary_proto.go writeMessageBegin/readMessageBegin: the thrift
             method name, length-prefixed bytes.
    http     proto/httproto packRequest: u := url.Parse(name); request line
-            "POST " + u.Path [+ "?" + u.RawQuery] + " HTTP/1.1".  Unpack: the first line is
+            "POST " + u.EscapedPath() [+ "?" + u.RawQuery] + " HTTP/1.1" (before the repair
+            7ef806c: u.Path, kept as [wire_http_prefix]).  Unpack: the first line is
             split at spaces into at most 3 parts, url.Parse(part 1), service method = its
             Path.  Only CALL/REPLY can be packed: a PUSH is refused by Pack.
 
-   Byte strings.  Domain: for json / pb / http the functions are claimed for names whose
-   bytes are all < 0x80 ([WOutside] otherwise: strconv.Quote and protobuf look at UTF-8
-   sequences); for http a name (or the request target made from it) with an authority part
+   Byte strings.  Domain: json carries every byte string; for pb / http (and the pre-repair
+   json) the functions are claimed for names whose bytes are all < 0x80 ([WOutside] otherwise:
+   protobuf and strconv.Quote look at UTF-8 sequences); for http a name (or the request target made from it) with an authority part
    ("//host...") is [WOutside] as well (url.parseAuthority is not modelled).  *)
 From Coq Require Import Strings.String Strings.Byte.
 From Coq Require Import List Arith NArith Bool Lia.
@@ -67,10 +71,19 @@ Definition go_quote_byte (b : byte) : bytes :=
 (* the text between the quotes *)
 Definition go_quote (s : bytes) : bytes := flat_map go_quote_byte s.
 
+(* jsonproto.go / jsonSubProto.go escapeBody, one byte *)
+Definition escape_body_byte (b : byte) : bytes :=
+  let n := b2n b in
+  if beqb b c_dq || beqb b c_bsl then [c_bsl; b]
+  else if n <? 32 then [c_bsl; "u"%byte; "0"%byte; "0"%byte; hex_lower (n / 16); hex_lower (n mod 16)]
+  else [b].
+Definition escape_body (s : bytes) : bytes := flat_map escape_body_byte s.
+
 (* gjson v1.2.2 unescape: a raw control byte, an escape it does not know, or a backslash at
-   the very end END the string there.  The \u branch is not reachable from go_quote on
-   bytes < 0x80 (Quote writes \u only for runes >= 0x80) and is left out: it ends the
-   string here like any unknown escape. *)
+   the very end END the string there.  \uXXXX: runeit parses four hex digits (0 when they
+   are not), the rune is appended in UTF-8; here only runes < 0x80 (one byte) are modelled -
+   escapeBody writes no other, Quote on bytes < 0x80 writes none at all - a larger one ends
+   the string in this model. *)
 Definition gj_escape (e : byte) : option byte :=
   if beqb e c_bsl || beqb e c_sl || beqb e c_dq then Some e
   else if beqb e "b"%byte then Some (n2b 8)
@@ -79,6 +92,16 @@ Definition gj_escape (e : byte) : option byte :=
   else if beqb e "r"%byte then Some (n2b 13)
   else if beqb e "t"%byte then Some (n2b 9)
   else None.
+
+Definition hex_any (b : byte) : bool :=
+  let n := b2n b in
+  ((48 <=? n) && (n <=? 57)) || ((65 <=? n) && (n <=? 70)) || ((97 <=? n) && (n <=? 102)).
+Definition hex_val (b : byte) : N :=
+  let n := b2n b in
+  if n <=? 57 then n - 48 else if n <=? 70 then n - 55 else n - 87.
+Definition gj_rune (h1 h2 h3 h4 : byte) : N :=
+  if hex_any h1 && hex_any h2 && hex_any h3 && hex_any h4
+  then ((hex_val h1 * 16 + hex_val h2) * 16 + hex_val h3) * 16 + hex_val h4 else 0.
 
 Fixpoint gjson_unescape (s : bytes) : bytes :=
   match s with
@@ -90,13 +113,24 @@ Fixpoint gjson_unescape (s : bytes) : bytes :=
         | [] => []
         | e :: r' => match gj_escape e with
                      | Some d => d :: gjson_unescape r'
-                     | None => []
+                     | None =>
+                         if beqb e "u"%byte then
+                           match r' with
+                           | h1 :: h2 :: h3 :: h4 :: r'' =>
+                               if gj_rune h1 h2 h3 h4 <? 128
+                               then n2b (gj_rune h1 h2 h3 h4) :: gjson_unescape r'' else []
+                           | _ => []
+                           end
+                         else []
                      end
         end
       else c :: gjson_unescape r
   end.
 
-Definition wire_json (n : bytes) : wire_res :=
+Definition wire_json (n : bytes) : wire_res := WSeen (gjson_unescape (escape_body n)).
+
+(* before the repair: strconv.Quote *)
+Definition wire_json_prefix (n : bytes) : wire_res :=
   if ascii_only n then WSeen (gjson_unescape (go_quote n)) else WOutside.
 
 (* the bytes < 0x80 that do not survive: Quote writes them as \a \v \xNN *)
@@ -219,19 +253,93 @@ Definition url_parse (raw : bytes) : url_res :=
           end
     end.
 
+(* the same url.Parse, also giving the text handed to setPath (None: setPath is not called) *)
+Inductive url_res_x :=
+| XErr
+| XAuthority
+| XOk (path : bytes) (rawpath : option bytes) (rawquery : bytes).
+
+Definition url_parse_x (raw : bytes) : url_res_x :=
+  let '(u, frag, _) := cut_at c_hash raw in
+  let frag_ok := match url_unescape frag with Some _ => true | None => false end in
+  if has_ctl u then XErr
+  else if bytes_eqb u [c_star] then (if frag_ok then XOk [c_star] None [] else XErr)
+  else
+    match get_scheme u with
+    | SchErr => XErr
+    | SchOk scheme rest0 =>
+        let '(rest, q) :=
+          if last_byte_is c_qm rest0 && Nat.eqb (count_byte c_qm rest0) 1
+          then (removelast rest0, [])
+          else let '(a, b, _) := cut_at c_qm rest0 in (a, b) in
+        let rooted := starts_with [c_sl] rest in
+        if negb rooted && negb (match scheme with [] => true | _ => false end) then
+          (if frag_ok then XOk [] None q else XErr)
+        else if negb rooted && existsb (beqb c_colon) (fst (fst (cut_at c_sl rest))) then XErr
+        else if starts_with [c_sl; c_sl] rest
+                && (negb (match scheme with [] => true | _ => false end)
+                    || negb (starts_with [c_sl; c_sl; c_sl] rest)) then XAuthority
+        else
+          match url_unescape rest with
+          | None => XErr
+          | Some p => if frag_ok then XOk p (Some rest) q else XErr
+          end
+    end.
+
+(* url.shouldEscape(c, encodePath) *)
+Definition path_should_escape (b : byte) : bool :=
+  let n := b2n b in
+  if ((48 <=? n) && (n <=? 57)) || ((65 <=? n) && (n <=? 90)) || ((97 <=? n) && (n <=? 122)) then false
+  else if beqb b "-"%byte || beqb b c_us || beqb b c_dot || beqb b "~"%byte then false
+  else if beqb b "$"%byte || beqb b "&"%byte || beqb b "+"%byte || beqb b ","%byte || beqb b c_sl
+          || beqb b c_colon || beqb b ";"%byte || beqb b "="%byte || beqb b "@"%byte then false
+  else true.   (* '?' and everything else *)
+
+Definition hex_upper (n : N) : byte := if n <? 10 then n2b (48 + n) else n2b (55 + n).
+Definition path_escape_byte (b : byte) : bytes :=
+  if path_should_escape b then [c_pct; hex_upper (b2n b / 16); hex_upper (b2n b mod 16)] else [b].
+(* url.escape(s, encodePath) *)
+Definition path_escape (s : bytes) : bytes := flat_map path_escape_byte s.
+
+(* url.validEncoded(s, encodePath) *)
+Definition valid_encoded_byte (b : byte) : bool :=
+  beqb b "!"%byte || beqb b "$"%byte || beqb b "&"%byte || beqb b "'"%byte || beqb b "("%byte
+  || beqb b ")"%byte || beqb b c_star || beqb b "+"%byte || beqb b ","%byte || beqb b ";"%byte
+  || beqb b "="%byte || beqb b c_colon || beqb b "@"%byte || beqb b "["%byte || beqb b "]"%byte
+  || beqb b c_pct || negb (path_should_escape b).
+Definition valid_encoded (s : bytes) : bool := forallb valid_encoded_byte s.
+
+(* URL.setPath then URL.EscapedPath: RawPath is kept only when it differs from the default
+   escaping of Path; EscapedPath returns it when it is a valid encoding (it un-escapes to Path
+   by construction), "*" for the path "*", else the default escaping of Path. *)
+Definition escaped_path (path : bytes) (rawpath : option bytes) : bytes :=
+  let raw_kept := match rawpath with
+                  | Some p => if bytes_eqb p (path_escape path) then [] else p
+                  | None => []
+                  end in
+  match raw_kept with
+  | _ :: _ => if valid_encoded raw_kept then raw_kept
+              else if bytes_eqb path [c_star] then [c_star] else path_escape path
+  | [] => if bytes_eqb path [c_star] then [c_star] else path_escape path
+  end.
+
 (* the part of the request line between the first and the second blank *)
 Definition first_field (s : bytes) : bytes := fst (fst (cut_at c_sp s)).
 
-(* httproto, CALL: packRequest then Unpack.  A decoded line feed in the target changes the
-   line structure of the message (not modelled). *)
-Definition wire_http_with (post : bytes -> bytes) (n : bytes) : wire_res :=
+(* httproto, CALL: packRequest then Unpack.  [written path rawpath] is what packRequest puts
+   into the request line for the path; [post] what Unpack does to the path it read.  A raw
+   line feed in the target would change the line structure of the message (not modelled; it
+   cannot occur with the escaped path). *)
+Definition wire_http_gen (written : bytes -> option bytes -> bytes) (post : bytes -> bytes)
+  (n : bytes) : wire_res :=
   if negb (ascii_only n) then WOutside
   else
-    match url_parse n with
-    | UErr => WRefused
-    | UAuthority => WOutside
-    | UOk path q =>
-        let target := match q with [] => path | _ => path ++ c_qm :: q end in
+    match url_parse_x n with
+    | XErr => WRefused
+    | XAuthority => WOutside
+    | XOk path rawpath q =>
+        let wp := written path rawpath in
+        let target := match q with [] => wp | _ => wp ++ c_qm :: q end in
         if existsb (beqb c_lf) target then WOutside
         else
           match url_parse (first_field target) with
@@ -241,7 +349,10 @@ Definition wire_http_with (post : bytes -> bytes) (n : bytes) : wire_res :=
           end
     end.
 
-Definition wire_http : bytes -> wire_res := wire_http_with (fun p => p).
+Definition wire_http : bytes -> wire_res := wire_http_gen escaped_path (fun p => p).
+
+(* before the repair: the unescaped path went into the request line *)
+Definition wire_http_prefix : bytes -> wire_res := wire_http_gen (fun path _ => path) (fun p => p).
 
 (* ------------------------------------------------------------------ all protocols *)
 
@@ -267,6 +378,20 @@ Definition dispatch_wire (p : proto) (r : router) (s : ns) (n : bytes) : wire_di
   | WOutside => WUnmodelled
   end.
 
+(* the two protocols as they were before the repair 7ef806c *)
+Definition wire_prefix (p : proto) (s : ns) (n : bytes) : wire_res :=
+  match p with
+  | PJson | PWsJson => wire_json_prefix n
+  | PHttp => match s with CALL => wire_http_prefix n | PUSH => WRefused end
+  | _ => wire p s n
+  end.
+Definition dispatch_wire_prefix (p : proto) (r : router) (s : ns) (n : bytes) : wire_dispatch :=
+  match wire_prefix p s n with
+  | WSeen n' => WDispatched (dispatch r s n')
+  | WRefused | WBroken => WNotDelivered
+  | WOutside => WUnmodelled
+  end.
+
 (* ---- names every protocol carries unchanged: letters, digits, '_' '/' '.' '-', at most 255
    bytes, not starting with "//" ---- *)
 Definition wire_plain_byte (b : byte) : bool :=
@@ -278,4 +403,4 @@ Definition wire_plain (n : bytes) : bool :=
    variant refuted in Properties/C10.v ---- *)
 Definition clean_if_rooted (p : bytes) : bytes :=
   if starts_with [c_sl] p then clean_rooted p else p.
-Definition wire_http_cleaning : bytes -> wire_res := wire_http_with clean_if_rooted.
+Definition wire_http_cleaning : bytes -> wire_res := wire_http_gen escaped_path clean_if_rooted.
